@@ -1,4 +1,4 @@
-CONSTANTS Callers <- C3  MaxId = 4  StartIds <- TwoStarts  NPkts = 0  Foreign = {}  QMax = 1  Timed = FALSE  TO <- TO3  DialBound = 1  ReadTO = 1  Horizon = 0  SerialDial = TRUE  DialModes = {"accept"}  MayClose = FALSE  Transient = {}
+CONSTANTS Callers <- C3  MaxId = 4  StartIds <- TwoStarts  NPkts = 0  Foreign = {}  QMax = 1  Timed = FALSE  TO <- TO3  DialBound = 1  ReadTO = 1  Horizon = 0  SerialDial = TRUE  DialModes = {"accept"}  MayClose = FALSE  RecvOffers = TRUE  Stamp = FALSE  InlineRecv = FALSE  Transient = {}
 SPECIFICATION Spec
 INVARIANTS TypeOK ReplyMatches IdNonZero IdsDistinct OnePacketOneCaller AcctQueue AcctMgr AcctResp NoResidue
 PROPERTIES LateReplyHarmless OnlyAddressee
